@@ -128,7 +128,7 @@ class Gen(object):
         form = rng.choice(choices)
         self.nref += 1
         r = {"id": self.nref, "role": role, "form": form, "fsel": None, "xsel": None, "asel": None,
-             "node": node, "tail": ("n%d" if node else "r%d") % self.nref, "verbose": rng.randrange(8),
+             "node": node, "tail": ("n%d" if node else "r%d") % self.nref, "verbose": rng.randrange(16),
              "style": "raw" if raw else rng.choice(["of", "of", "of", "inline", "partial", "dotof"]),
              "dot": rng.random() < 0.5}
         r["body"] = self.body(1 if form == "abs" and rng.random() < 0.8 else 0, 2)
@@ -367,6 +367,8 @@ def render_ref(r, naming):
         text += " of frame" + ("" if (xs == "me" and not v & 2) else " " + _sel_text(xs, naming))
         if fs == framer_default and not v & 4:
             return text
+    if xs == "main" and fs == "main" and v & 8:
+        return text + " of framer"      # framer clause given but unnamed: after `of frame main` it defaults to main
     text += " of framer" + ("" if (fs == "me" and not v & 4) else " " + _sel_text(fs, naming))
     return text
 
